@@ -437,6 +437,8 @@ PROPS["C05"]["claim"] += (" NEVER RECORDED (failed_command_is_never_recorded): i
 PROPS["C03"]["claim"] += (" AFTER A FAILED BUILD (completed_steps_are_up_to_date_next_time; next_startup_upToDate): every non-phony step that was Done when "
     "an invocation stopped (success or ordinary failure) and whose files exist is UpToDate in the next invocation's freshly loaded environment, "
     "so what a failed build completed is not redone; completed_steps_are_up_to_date_next_time_reloaded: the same for the part of an invocation after a manifest reload.")
+PROPS["C03"]["claim"] += (" RESTAT (untouched_step_is_not_rerun, upToDate_frame): an up-to-date step whose own files keep their modification times stays "
+    "up to date whatever other commands do, and is found clean - being downstream of a step that ran is not a reason to run.")
 PROPS["C03"]["claim"] += (" REFLECTION (settled_world_is_left_alone, Lemmas/WorldReflect): the decidable predicate the monitor settledAfterSuccess evaluates "
     "on the world the real n2 left behind (World.settledC = World.settled + a closedness check of the computed closure) IMPLIES the hypothesis of "
     "repeated_build_does_nothing - so every world on which the monitor said 'settled' (evidence: driver.settledStates) is one for which it is proved "
